@@ -71,6 +71,7 @@ func (t *Tokenizer) Parse(buf []byte, handler oj.TokenHandler) (err error) {
 	}
 	t.noff = -1
 	t.line = 1
+	t.exkey = false
 	t.mode = valueMap
 	t.mi = 0
 	defer func() {
@@ -103,6 +104,7 @@ func (t *Tokenizer) Load(r io.Reader, handler oj.TokenHandler) (err error) {
 	}
 	t.noff = -1
 	t.line = 1
+	t.exkey = false
 	t.mi = 0
 	buf := make([]byte, readBufSize)
 	eof := false
